@@ -51,6 +51,7 @@ structure JSt where
   events : List JEvent
   emitAt : List Nat                  -- clock reading attached to each emission
   byTick : List Bool                 -- was the emission caused by a ticker firing
+  firstAt : Nat                      -- clock reading at which the oldest element of `buf` was accepted
   deriving Repr
 
 inductive JAct
@@ -65,7 +66,7 @@ inductive JAct
 
 def jinit (cfg : JCfg) (t0 : Nat) : JSt :=
   { cfg := cfg, buf := [], passAt := t0, pc := .run, unreleased := false, stopped := false, closing := false,
-    nextId := 1000000, out := [], consumed := [], events := [], emitAt := [], byTick := [] }
+    nextId := 1000000, out := [], consumed := [], events := [], emitAt := [], byTick := [], firstAt := t0 }
 
 /-- `send` of a slice with identity `id`: copy mode clones (fresh identity) and carries on;
     no-copy mode hands out the slice itself and waits for the release -/
@@ -90,13 +91,14 @@ def jpass (s : JSt) (t : Nat) (tick : Bool) (next : Option (Nat × List Nat)) : 
     if s.cfg.noCopy then s1 else jafterPass s1 t
 
 /-- append to the accumulation buffer -/
-def jappend (s : JSt) (xs : List Nat) : JSt :=
-  { s with buf := s.buf ++ xs, events := s.events ++ [.write] }
+def jappend (s : JSt) (xs : List Nat) (t : Nat) : JSt :=
+  { s with buf := s.buf ++ xs, events := s.events ++ [.write],
+           firstAt := if s.buf = [] then t else s.firstAt }
 
 /-- append, then pass if the buffer reached JoinSize: the whole of join's `process`, and
     the tail of unite's -/
 def jappendPath (s : JSt) (xs : List Nat) (t : Nat) : JSt :=
-  let s1 := jappend s xs
+  let s1 := jappend s xs t
   if s1.buf.length < s.cfg.size then s1 else jpass s1 t false none
 
 /-- unite `forward(item)`: the input slice itself is sent -/
@@ -158,7 +160,9 @@ def jstep (s : JSt) (a : JAct) : Option JSt :=
     -- send may be aborted: modelled as "nothing more is emitted"
     if s.cfg.v1 ∧ s.stopped then some { s with pc := .done, passAt := t } else none
   | .run, .stopFlush t =>
-    if s.cfg.v1 ∧ s.stopped then some { jpass s t false none with pc := .done, buf := [] } else none
+    if s.cfg.v1 ∧ s.stopped then
+      some { jpass s t false none with pc := .done, buf := [], unreleased := (match (jpass s t false none).pc with | .await _ => true | _ => s.unreleased) }
+    else none
   | .await _, .stopSeen _ =>
     -- v1: stop while waiting for the release: `unreleased` is set, nothing is touched again
     if s.cfg.v1 ∧ s.stopped then some { s with pc := .done, unreleased := true } else none
